@@ -50,11 +50,17 @@ var c04Partial = map[string]partialSpec{
 var c04PartialAllowed = map[string]string{
 	"excellent/functions.Mean|github.com/shopspring/decimal.Decimal.Div":           "divisor is len(args); Mean is registered with MinArgsCheck(1, Mean) so len(args) >= 1 (rule R3 checks the registration)",
 	"excellent/types.newXNumberFromString|github.com/shopspring/decimal.RequireFromString": "argument matched decimalRegexp on the line above (dominating MatchString guard), which admits only digits with an optional sign and point",
-	"flows/routers/cases.ParseDecimal|regexp.MustCompile":                          "pattern is built from the environment's NumberFormat symbols, each escaped with a backslash; the environment is host configuration, not template input",
+	"flows/routers/cases.testNumber|regexp.MustCompile":                            "pattern is built from the environment's NumberFormat symbols (host configuration, outside C04's quantifier over templates, contexts and arguments), each escaped with a backslash",
 }
 
 // frozen table for R1: explicit panics reachable from evaluation, with the guard that makes them unreachable
-var c04PanicAllowed = map[string]string{}
+var c04PanicAllowed = map[string]string{
+	"excellent/types.JSONToXValue":             "dominated by the json.Valid(data) guard: jsonparser.Get only fails on invalid documents",
+	"excellent/types.RequireXNumberFromString": "only called from VisitNumberLiteral with the text of an INTEGER/DECIMAL token ([0-9]+ ('.' [0-9]+)?), which decimalRegexp accepts",
+	"excellent/types.Compare":                  "NOCALLERS: exported helper without a caller outside tests",
+	"excellent/types.Compare#2":                "NOCALLERS: exported helper without a caller outside tests",
+	"excellent.toExpression":                   "every visitor method that feeds it returns an Expression node (or nil); the default arm documents that",
+}
 
 func checkC04(p *core.Program, r *core.Report) {
 	r.Rule("R1", "every explicit panic in the expression-evaluation packages is listed as unreachable-by-construction with its guard, or is a violation")
@@ -91,6 +97,16 @@ func checkC04(p *core.Program, r *core.Report) {
 				key = fmt.Sprintf("%s#%d", key, n+1)
 			}
 			if reason, ok := c04PanicAllowed[key]; ok {
+				if strings.HasPrefix(reason, "NOCALLERS") {
+					nc := 0
+					for _, cs := range p.CallsTo(rootFn(f)) {
+						if !p.IsTestFile(cs.Pos()) {
+							nc++
+						}
+					}
+					r.Check(nc == 0, "R1", key, p.Pos(pn.Pos()), "listed: "+reason, fmt.Sprintf("panicking helper now has %d callers outside tests", nc))
+					return
+				}
 				r.OK("R1", key, p.Pos(pn.Pos()), "listed: "+reason)
 			} else {
 				r.Bad("R1", key, p.Pos(pn.Pos()), "explicit panic reachable from expression evaluation and not listed as unreachable-by-construction")
@@ -141,6 +157,10 @@ func checkC04(p *core.Program, r *core.Report) {
 
 	// ---------- R4 unchecked type assertions
 	c04R4(p, r, fns)
+
+	// ---------- R5 constant-offset string slicing
+	r.Rule("R5", "every s[k:], s[:k], s[k] with a constant offset on a string/[]byte in the evaluation packages is guarded by a length / non-empty / prefix test on the same value or listed")
+	r.Count("const_offset_string_sites", c04R5(p, r, fns, "R5", c04SliceAllowed))
 }
 
 func rootFn(f *ssa.Function) *ssa.Function {
@@ -260,6 +280,12 @@ func guardOn(cs core.CallSite, operand ssa.Value, kind string) string {
 
 // ------------------------------------------------------------------------------------------------------ R3
 
+// frozen exceptions for R3
+var c04ArityAllowed = map[string]string{
+	"(*excellent.AnonFunction).Evaluate/checker-min": "the minimum is len(x.Args) and the wrapped closure indexes args only with the range index over the same x.Args",
+	"excellent/functions.Object[min=0]/args[i]":      "pairs[i+1] inside `for i := 0; i < len(pairs); i += 2` after the dominating `len(pairs)%2 != 0` rejection: i+1 < len(pairs)",
+}
+
 // lenLowerBound: the lower bound on len(slice) implied by the conditions controlling block b.
 func lenLowerBound(b *ssa.BasicBlock, slice ssa.Value) int64 {
 	lb := int64(0)
@@ -336,6 +362,8 @@ func checkArgsIndexing(p *core.Program, r *core.Report, fn *ssa.Function, args *
 				// accepted when a controlling condition compares this very index with len(args)
 				if rangeGuarded(x.Block(), x.Index, args) {
 					r.OK("R3", key, p.Pos(x.Pos()), "loop index bounded by len(args)")
+				} else if reason, ok := c04ArityAllowed[key]; ok {
+					r.OK("R3", key, p.Pos(x.Pos()), "listed: "+reason)
 				} else {
 					r.Bad("R3", key, p.Pos(x.Pos()), "computed index into args without a len(args) bound")
 				}
@@ -437,8 +465,7 @@ func c04R3(p *core.Program, r *core.Report) {
 					return
 				}
 				// Y must be the captured `min`
-				fv, ok := bo.Y.(*ssa.FreeVar)
-				if !ok || fv.Name() != "min" {
+				if freeVarName(bo.Y) != "min" {
 					return
 				}
 				if (bo.Op == token.NEQ && !taken) || (bo.Op == token.LSS && !taken) || (bo.Op == token.GEQ && taken) || (bo.Op == token.EQL && taken) {
@@ -446,7 +473,7 @@ func c04R3(p *core.Program, r *core.Report) {
 				}
 			},
 			OnCall: func(s *core.PathState, c ssa.CallInstruction) []core.CallOutcome {
-				if fv, ok := c.Common().Value.(*ssa.FreeVar); ok && fv.Name() == "f" {
+				if freeVarName(c.Common().Value) == "f" {
 					calls++
 					if !s.Has("LB") {
 						bad = fmt.Sprintf("the wrapped function is called on a path that never established len(args) >= min (blocks %v)", s.Blocks)
@@ -488,7 +515,7 @@ func c04R3(p *core.Program, r *core.Report) {
 		}
 		a := cs.Common().Args
 		var tfn *ssa.Function
-		switch f := a[fi].(type) {
+		switch f := core.StripConv(a[fi]).(type) {
 		case *ssa.Function:
 			tfn = f
 		case *ssa.MakeClosure:
@@ -500,6 +527,10 @@ func c04R3(p *core.Program, r *core.Report) {
 			continue
 		}
 		if !isC {
+			if reason, ok := c04ArityAllowed[core.FuncName(cs.Caller)+"/checker-min"]; ok {
+				r.OK("R3", core.FuncName(cs.Caller)+"/checker-min", p.Pos(cs.Pos()), "listed: "+reason)
+				continue
+			}
 			r.Bad("R3", core.FuncName(cs.Caller)+"/checker-min", p.Pos(cs.Pos()), "arity minimum is not a compile-time lower bound")
 			continue
 		}
@@ -512,7 +543,7 @@ func c04R3(p *core.Program, r *core.Report) {
 				continue
 			}
 			a := cs.Common().Args
-			if f, ok := a[2].(*ssa.Function); ok {
+			if f, ok := core.StripConv(a[2]).(*ssa.Function); ok {
 				if min, isC := core.ConstInt(a[0]); isC {
 					targets = append(targets, target{f, min, "InitialTextFunction"})
 					continue
@@ -524,7 +555,7 @@ func c04R3(p *core.Program, r *core.Report) {
 		okPass := false
 		for _, an := range itf.AnonFuncs {
 			for _, cs := range core.Calls(an, false) {
-				if fv, ok := cs.Common().Value.(*ssa.FreeVar); ok && fv.Name() == "f" {
+				if freeVarName(cs.Common().Value) == "f" {
 					last := cs.Common().Args[len(cs.Common().Args)-1]
 					if sl, ok := last.(*ssa.Slice); ok {
 						if k, isC := core.ConstInt(sl.Low); isC && k == 1 && sl.X == ssa.Value(sliceParam(an)) {
@@ -573,6 +604,17 @@ func c04R3(p *core.Program, r *core.Report) {
 	r.Require("arity_checked_functions", nT, 25)
 }
 
+// freeVarName: the name of the free variable v is, or is loaded from.
+func freeVarName(v ssa.Value) string {
+	if u, ok := v.(*ssa.UnOp); ok && u.Op == token.MUL {
+		v = u.X
+	}
+	if fv, ok := v.(*ssa.FreeVar); ok {
+		return fv.Name()
+	}
+	return ""
+}
+
 // intLowerBound evaluates an int expression to a compile-time lower bound: constants, +, and parameters (minimum over
 // all static call sites of the enclosing function).
 func intLowerBound(p *core.Program, v ssa.Value, depth int) (int64, bool) {
@@ -608,6 +650,17 @@ func intLowerBound(p *core.Program, v ssa.Value, depth int) (int64, bool) {
 			found = true
 		}
 		return min, found
+	case *ssa.UnOp:
+		if x.Op == token.MUL {
+			return intLowerBound(p, x.X, depth)
+		}
+	case *ssa.Alloc:
+		// spilled (captured) parameter: the value stored into it
+		for _, ref := range *x.Referrers() {
+			if st, ok := ref.(*ssa.Store); ok && st.Addr == ssa.Value(x) {
+				return intLowerBound(p, st.Val, depth+1)
+			}
+		}
 	case *ssa.FreeVar:
 		// captured parameter of the enclosing function
 		fn := x.Parent()
@@ -681,7 +734,11 @@ func c04BareRegistrations(p *core.Program, r *core.Report) []*ssa.Function {
 // ------------------------------------------------------------------------------------------------------ R4
 
 // frozen table: unchecked assertions that are guarded by an invariant the rule cannot see locally
-var c04AssertAllowed = map[string]string{}
+var c04AssertAllowed = map[string]string{
+	"excellent/functions.Sort/(excellent/types.XComparable)#1": "the loop above returns an error value unless every element asserts to XComparable and is SameType as the first element",
+	"(*excellent.visitor).VisitAnonFunction/([]string)#1":      "ctx.NameList() is visited by VisitNameList, which returns []string on every path",
+	"excellent/functions.Sort->Compare":                        "Sort's comparator runs only after the loop above established XComparable and SameType for every element",
+}
 
 func c04R4(p *core.Program, r *core.Report, fns []*ssa.Function) {
 	n := 0
@@ -705,6 +762,10 @@ func c04R4(p *core.Program, r *core.Report, fns []*ssa.Function) {
 			key := fmt.Sprintf("%s/(%s)#%d", base, core.ShortType(ta.AssertedType), perFn[base])
 			if g := typeGuard(ta); g != "" {
 				r.OK("R4", key, p.Pos(ta.Pos()), "guarded: "+g)
+				return
+			}
+			if is, bad := sameTypeMethodAssert(p, ta); is {
+				r.Check(bad == "", "R4", key, p.Pos(ta.Pos()), "every call site passes the receiver's own type or is guarded by a dynamic type-equality test", bad)
 				return
 			}
 			if reason, ok := c04AssertAllowed[key]; ok {
@@ -735,5 +796,100 @@ func typeGuard(ta *ssa.TypeAssert) string {
 			return "comma-ok test on the same value"
 		}
 	}
+	// if IsXError(x) { x.(*XError) } / x.(error)
+	for _, ce := range core.ControllingConds(ta.Block()) {
+		if !ce.Taken {
+			continue
+		}
+		if c, ok := ce.Cond.(*ssa.Call); ok {
+			if o := core.CalleeObj(&c.Call); o != nil && core.ObjName(o) == "excellent/types.IsXError" && len(c.Call.Args) == 1 && c.Call.Args[0] == ta.X {
+				at := core.ShortType(ta.AssertedType)
+				if at == "*excellent/types.XError" || at == "error" {
+					return "types.IsXError on the same value"
+				}
+			}
+		}
+	}
 	return ""
+}
+
+// sameTypeMethodAssert: `o.(*T)` on the parameter of (T).Equals / (T).Compare. The obligation moves to the call
+// sites of the method: the argument is statically a *T, or the call is guarded by a dynamic type-equality test.
+func sameTypeMethodAssert(p *core.Program, ta *ssa.TypeAssert) (bool, string) {
+	fn := ta.Parent()
+	if fn.Signature.Recv() == nil || (fn.Name() != "Equals" && fn.Name() != "Compare") || len(fn.Params) != 2 {
+		return false, ""
+	}
+	if ta.X != ssa.Value(fn.Params[1]) || !types.Identical(ta.AssertedType, fn.Signature.Recv().Type()) {
+		return false, ""
+	}
+	n := 0
+	for _, cs := range p.CallsTo(fn) {
+		if p.IsTestFile(cs.Pos()) {
+			continue
+		}
+		n++
+		cc := cs.Common()
+		arg := cc.Args[len(cc.Args)-1]
+		if mi, ok := arg.(*ssa.MakeInterface); ok && types.Identical(mi.X.Type(), fn.Signature.Recv().Type()) {
+			continue
+		}
+		if types.Identical(arg.Type(), fn.Signature.Recv().Type()) {
+			continue
+		}
+		// dynamic dispatch: require a SameType / reflect.TypeOf guard in the caller
+		guarded := false
+		for _, ce := range core.ControllingConds(cs.Instr.Block()) {
+			for x := range core.BackSlice(ce.Cond, func(*ssa.Call) bool { return true }) {
+				if c, ok := x.(*ssa.Call); ok {
+					if o := core.CalleeObj(&c.Call); o != nil && (core.ObjName(o) == "reflect.TypeOf" || core.ObjName(o) == "excellent/types.SameType") {
+						guarded = true
+					}
+				}
+			}
+		}
+		if guarded {
+			continue
+		}
+		if reason, ok := c04AssertAllowed[core.FuncName(rootFn(cs.Caller))+"->"+fn.Name()]; ok {
+			_ = reason
+			continue
+		}
+		return true, fmt.Sprintf("call at %s passes a value whose dynamic type is not known to be %s and has no SameType guard", p.Pos(cs.Pos()), core.ShortType(fn.Signature.Recv().Type()))
+	}
+	return true, ""
+}
+
+// ------------------------------------------------------------------------------------------------------ R5
+
+// frozen table: constant-offset string slicing sites that are safe for a reason the guard matcher cannot see
+var c04SliceAllowed = map[string]string{
+	"(*excellent.visitor).VisitTextLiteral/[1:]": "fallback for a TEXT token whose Unquote failed: a TEXT token always starts and ends with a double quote (lexer rule '\"' ... '\"'), so len >= 2",
+}
+
+func c04R5(p *core.Program, r *core.Report, fns []*ssa.Function, rule string, allowed map[string]string) int {
+	n := 0
+	per := map[string]int{}
+	for _, fn := range fns {
+		for _, site := range constOffsetSites(fn) {
+			n++
+			base := core.FuncName(rootFn(fn))
+			k := base + "/" + site.expr
+			per[k]++
+			key := k
+			if per[k] > 1 {
+				key = fmt.Sprintf("%s#%d", k, per[k])
+			}
+			if g := lengthGuard(site); g != "" {
+				r.OK(rule, key, p.Pos(site.instr.Pos()), "guarded: "+g)
+				continue
+			}
+			if reason, ok := allowed[key]; ok {
+				r.OK(rule, key, p.Pos(site.instr.Pos()), "listed: "+reason)
+				continue
+			}
+			r.Bad(rule, key, p.Pos(site.instr.Pos()), fmt.Sprintf("%s%s needs len >= %d but no controlling condition establishes it: slice bounds out of range panic on a shorter value", canon(site.base), site.expr, site.need))
+		}
+	}
+	return n
 }
